@@ -27,9 +27,15 @@ class P(ServeProp):
                 continue          # transport faults are C04's: the response is cut short there, the model does not express it
             out.append(self._with_manifest(l))
         # reads of the built-in pages and of anything else, from trees that do or do not hold a file of that name: serving a default must not create it
-        for _ in range(n // 6):
+        for j in range(n // 6):
             t = gs.gen_tree(rnd, maxents=rnd.choice([0, 1, 3, 8]))
             tg = rnd.choice(["/style.css", "/script.js", "/favicon.svg", "/", "/index.html", "/404.html", "/missing", "/sub/", "/style.css?x=1", "/a.txt"])
+            if j % 4 == 1:
+                # a page below the top level asked for without its ".html", and a directory asked for its index: the lookups that try several
+                # names must not leave one of them behind (from the case number, no draw: the streams of earlier runs stay)
+                t.ents += [("D", "outer/root/docs"), ("F", "outer/root/docs/guide.html", b"<p>guide</p>"), ("D", "outer/root/docs/v2"),
+                           ("F", "outer/root/docs/v2/api.html", b"<p>api</p>"), ("F", "outer/root/docs/v2/index.html", b"<p>v2</p>")]
+                tg = ["/docs/guide", "/docs/v2/api", "/docs/guide?x=1", "/docs/v2/api#top", "/docs/v2", "/docs/v2/"][j // 4 % 6]
             out.append(self._with_manifest(gs.serve_case(rnd, kind="serve" if rnd.random() < 0.8 else "serveL", tree=t, target=tg, method=rnd.choice(["GET", "GET", "HEAD", "OPTIONS"]), meta="builtin=1")))
         while len(out) < n:
             t = gs.gen_tree(rnd, maxents=rnd.choice([3, 8]))
